@@ -3,9 +3,9 @@
    the well-formedness predicate of Spec/C10Spec.v, on whole call histories.
 
    Requests
-     ("runs" <file> nslots fuel every (<history> ...))
-         per history: ((model answers) (spec answers) (valid_op flags) (abstract states))
-         abstract states: after every call if every<>0, else after the last call only
+     ("runs" <file> nslots fuel stride lastonly (<history> ...))      lastonly<>0: only the answers of the last call
+         per history, flat: "#" (model answers) "|" (spec answers) "|" (valid_op flags) "|" state "|" state ...
+         abstract states: after every stride-th call and the last one (stride 0: the last one only)
      ("wf" <file>)  ->  (wf_file no_define_file)
    The abstract state is printed with objects named by their POSITION in the cache lists
    (unit: index in _cu_cache; entry: (unit index, index in _dielist)), which is what the
@@ -188,29 +188,47 @@ Definition state_sx (s : state) : sx :=
       SL (map (frame_sx s) (frames s))].
 
 (* ---------------------------------------------------------------- running histories *)
-Record trace := mk_trace { t_state : state; t_afs : list aframe;
+Record trace := mk_trace { t_state : state; t_afs : list aframe; t_n : nat;
                            t_model : list sx; t_spec : list sx; t_valid : list sx; t_states : list sx }.
 
-Definition run_history (F : file) (nslots fuel : nat) (every : bool) (h : list op) : sx :=
+(* stride = 0: the abstract state after the last call only; stride = k: after every k-th call and the last.
+   Result, flat, with separator symbols the harness can split the text on without parsing the states:
+     "#" (model answers) "|" (spec answers) "|" (valid_op flags) "|" state "|" state ... *)
+Definition run_history (F : file) (nslots fuel stride : nat) (lastonly : bool) (h : list op) : list sx :=
   let P := parsers_of F in
+  let len := length h in
   let t := fold_left
     (fun t o =>
        let '(s', a) := step P fuel (t_state t) o in
        let '(afs', x) := spec_step F (t_afs t) o in
-       mk_trace s' afs' (sx_answer a :: t_model t) (sx_answer x :: t_spec t)
+       let n := S (t_n t) in
+       let keep := Nat.eqb n len || (negb (Nat.eqb stride 0) && Nat.eqb (Nat.modulo n stride) 0) in
+       mk_trace s' afs' n (sx_answer a :: t_model t) (sx_answer x :: t_spec t)
                 (sx_bool (valid_op F o) :: t_valid t)
-                (if every then state_sx s' :: t_states t else t_states t))
-    h (mk_trace (init_state nslots) (repeat AFEmpty nslots) [] [] [] []) in
-  SL [SL (rev (t_model t)); SL (rev (t_spec t)); SL (rev (t_valid t));
-      SL (if every then rev (t_states t) else [state_sx (t_state t)])].
+                (if keep then state_sx s' :: SS "|" :: t_states t else t_states t))
+    h (mk_trace (init_state nslots) (repeat AFEmpty nslots) 0 [] [] [] []) in
+  let pick (l : list sx) := if lastonly then firstn 1 l else rev l in
+  SS "#" :: SL (pick (t_model t)) :: SS "|" :: SL (pick (t_spec t)) :: SS "|" :: SL (rev (t_valid t))
+     :: (match h with [] => [SS "|"; state_sx (t_state t)] | _ => rev (t_states t) end).
 
 Definition dispatch (req : sx) : sx :=
   let l := gL req in
   let k := gS (nthx 0 l) in
   if k =? "runs" then
     let F := g_file (nthx 1 l) in
-    SL (map (fun h => run_history F (gnat (nthx 2 l)) (gnat (nthx 3 l)) (gbool (nthx 4 l)) (map g_op (gL h)))
-            (gL (nthx 5 l)))
+    SL (flat_map (fun h => run_history F (gnat (nthx 2 l)) (gnat (nthx 3 l)) (gnat (nthx 4 l)) (gbool (nthx 5 l))
+                                       (map g_op (gL h)))
+                 (gL (nthx 6 l)))
   else if k =? "wf" then
     let F := g_file (nthx 1 l) in SL [sx_bool (wf_file F); sx_bool (no_define_file F)]
+  else if k =? "wfdiag" then
+    let F := g_file (nthx 1 l) in
+    SL [sx_bool (units_chain 0 (f_units F) (f_info_size F));
+        SL (map (fun ud => SL [SI (ud_off ud); sx_bool (wf_node (ud_off ud) (ud_tree ud));
+                               sx_bool (node_off (ud_tree ud) =? ud_die_off ud)%Z;
+                               sx_bool (node_end (ud_tree ud) <=? ud_off ud + uh_size (ud_hdr ud))%Z;
+                               sx_bool (znodup (map fst (ud_entries ud)));
+                               sx_bool (uh_abbrev (ud_hdr ud) <? f_abbrev_size F)%Z;
+                               sx_bool (wf_unit F ud)]) (f_units F));
+        sx_bool (wf_elf F)]
   else sx_err "unknown-op".
